@@ -105,18 +105,24 @@ theorem SortedKeys.head_lt {p : Nat × Bytes} {r : List (Nat × Bytes)} (h : Sor
     · subst e; exact h.1
     · exact Nat.lt_trans h.1 (ih h.2 q hm)
 
-theorem parseChunks_roundtrip : ∀ (cs acc : List (Nat × Bytes)),
+theorem parseChunks_roundtrip (jc : JsonChk) : ∀ (cs acc : List (Nat × Bytes)),
     SortedKeys cs → (∀ p ∈ cs, KeysBelow acc p.1) → (∀ p ∈ cs, ∀ x ∈ p.2, x < 256) →
-    parseChunks (cs.map (fun (p : Nat × Bytes) => (decStr p.1, J.str (hexEncUp p.2)))) acc = some (acc ++ cs) := by
+    (jc = .bounded → ∀ p ∈ cs, p.1 ≤ maxChunkIndex) →
+    parseChunks jc (cs.map (fun (p : Nat × Bytes) => (decStr p.1, J.str (hexEncUp p.2)))) acc = some (acc ++ cs) := by
   intro cs
   induction cs with
-  | nil => intro acc _ _ _; simp [parseChunks]
+  | nil => intro acc _ _ _ _; simp [parseChunks]
   | cons p r ih =>
-    intro acc hs hb hx
+    intro acc hs hb hx hi
     obtain ⟨k, v⟩ := p
     have hbk : KeysBelow acc k := hb (k, v) (List.mem_cons_self ..)
+    have hidx : ¬ (jc = .bounded ∧ maxChunkIndex < k) := by
+      rintro ⟨h1, h2⟩
+      have := hi h1 (k, v) (List.mem_cons_self ..)
+      simp only at this
+      omega
     simp only [List.map_cons, parseChunks, parseDec_decStr, J.asStr]
-    rw [hexDec_hexEncUp v (hx (k, v) (List.mem_cons_self ..))]
+    rw [if_neg hidx, hexDec_hexEncUp v (hx (k, v) (List.mem_cons_self ..))]
     simp only [getChunk_none_of_below acc k hbk, Option.isSome_none]
     rw [insertChunk_append acc k v hbk]
     have := ih (acc ++ [(k, v)]) hs.tail
@@ -126,6 +132,7 @@ theorem parseChunks_roundtrip : ∀ (cs acc : List (Nat × Bytes)),
         · exact Nat.lt_trans (hbk a h1) (hs.head_lt q hq)
         · simp only [List.mem_singleton] at h1; subst h1; exact hs.head_lt q hq)
       (fun q hq => hx q (List.mem_cons_of_mem _ hq))
+      (fun hb' q hq => hi hb' q (List.mem_cons_of_mem _ hq))
     simp only [Bool.false_eq_true, if_false]
     rw [this]
     simp
